@@ -269,6 +269,11 @@ class AcStatusDecoder(
             self._mismatch_logged = True
 
         acs: list[AcStatusData] = []
+        # The console announces the length of any non-repeating ("normal") data
+        # that precedes the repeating records. The interface specification says
+        # to use the announced value for parsing, so skip over it.
+        buffer = buffer[header.non_repeat_length :]
+
         for _ in range(header.repeat_count):
             (
                 b1,
